@@ -290,13 +290,26 @@ class Alg:
         return self.c * self.c * self.r
 
     def __mul__(self, o):
-        return Alg(terms=[(c1 * c2, r1 * r2) for c1, r1 in self.terms for c2, r2 in o.terms])
+        out = []
+        for c1, r1 in self.terms:
+            for c2, r2 in o.terms:
+                if not (r1.isconst() and r1.constval() == 1) and r1.eq(r2):
+                    out.append((c1 * c2 * r1, Rat.const(1)))      # sqrt(r)*sqrt(r) = r
+                else:
+                    out.append((c1 * c2, r1 * r2))
+        return Alg(terms=out)
 
     def __truediv__(self, o):
         if not o.single() or not o.terms:
             raise AnalysisError('division by a sum of square roots (or zero) is outside the dialect')
         c2, r2 = o.terms[0]
-        return Alg(terms=[(c1 / c2, r1 / r2) for c1, r1 in self.terms])
+        out = []
+        for c1, r1 in self.terms:
+            if not (r1.isconst() and r1.constval() == 1) and r1.eq(r2):
+                out.append((c1 / c2, Rat.const(1)))
+            else:
+                out.append((c1 / c2, r1 / r2))
+        return Alg(terms=out)
 
     def __add__(self, o):
         return Alg(terms=list(self.terms) + list(o.terms))
